@@ -40,7 +40,7 @@ claims.update({
    'DESIGN.md 3.C06'),
  'C18': ('other', 'gate dominance on all paths of the middlewares, key-function value flow, forbidden-API reference scan, signature-input coverage by value flow',
    'Protected handler runs only on paths where ParseToken returned no error, all others write 401; key function returns the configured secret bytes without inspecting the token; no none-alg / unverified parse anywhere in the module; registered claims filtered; behind strict content security the handler runs only after ParseContentSecurity ok and VerifySignature == CodeSignaturePass; HMAC input covers timestamp, method, path, query, body digest, keyed by the decrypted secret, compared after the tolerance test; cryption handler decrypts before and encrypts after the handler.',
-   'Not decided: cryptographic strength, payload round trips. Known findings F5a (unsigned PATCH/HEAD/OPTIONS bypass the strict gate) and F5b (X-Request-Uri replaces the signed path).',
+   'Not decided: cryptographic strength, payload round trips. Known findings F5a (unsigned PATCH/HEAD/OPTIONS bypass the strict gate), F5b (X-Request-Uri replaces the signed path) and F24b (a ciphertext that is not a whole number of blocks decrypts to NUL bytes).',
    'DESIGN.md 3.C18'),
 })
 claims.update({
@@ -92,7 +92,7 @@ claims.update({
 claims.update({
  'C15': ('other', 'lock-guard of the ring state, writer/reader agreement of the virtual-node hash derivation, per-iteration pairing rules of the add/remove loops, sortedness and emptiness-guard rules of Get',
    'keys/ring/nodes only under h.lock; AddWithReplicas removes the node first, clamps replicas to h.replicas (Remove\'s loop bound), registers the node, appends exactly one key entry and one ring entry per replica for hashFunc(repr(node)+Itoa(i)) unconditionally, sorts keys ascending before unlocking; Remove derives the same hashes, removes at most the one matching key per replica guarded only by the search hit, always filters the node out of ring[hash], forgets the node; Get answers (nil,false) exactly when the ring/key list (the modulus) is empty, else a member of ring[keys[search % len(keys)]]; AddWithWeight = replicas*weight/100.',
-   'Not decided: minimal disruption and history independence as quantitative statements (follow from these invariants plus hash-function properties); collision buckets keep insertion order.',
+   'Not decided: minimal disruption and history independence as quantitative statements (follow from these invariants plus hash-function properties); collision buckets keep insertion order. Known finding F27 (prefix-related node names share virtual nodes).',
    'DESIGN.md 3.C15'),
 })
 claims.update({
@@ -153,6 +153,30 @@ extra4 = {
  'C19': ' Acquire/Release run their ...Ctx sibling themselves, once, on their own receiver and return its results unchanged; RedisLock methods use no package-level state besides the two scripts (R7).',
 }
 for k, v in extra4.items():
+    lvl, tech, text, note, ref = claims[k]
+    claims[k] = (lvl, tech, text + v, note, ref)
+# round-5 additions
+extra5 = {
+ 'C01': ' Acceptability predicates compare errors with sentinels only through errors.Is/As (R11); a handler that panicked is rejected by the REST middleware (found and fixed F17).',
+ 'C02': ' The state fields of a shedder are made for that shedder, never a package-level variable (R11).',
+ 'C05': ' Pool.Put never changes the resource count and only Get writes it; the unbounded stream walk is reached only through the explicit option.',
+ 'C06': ' The requested expiry is written only after it was found positive, else the configured one (found and fixed F25); keyer and primaryQuery get the index entry\'s primary key unchanged (R6b); cache constructors forward the barrier they were given.',
+ 'C07': ' A flight whose function does not return leaves a non-nil error for its joiners (found and fixed F18); the cache node\'s use of the flight is checked under C07 as well (R9).',
+ 'C08': ' The range table includes the unordered (NaN) rows (found and fixed F22); both range validators accept only through the verified comparator (R4b); no method call on reflect.TypeOf of a possibly-null document element (R6b).',
+ 'C09': ' Path-variable maps are made by the search that returns them, never pooled or shared (R8).',
+ 'C10': ' The mapper semaphore is sized from the configured worker count (R9); the panic hand-off channel has capacity >= 1 so a late panic cannot hang the call (R10; found and fixed F26).',
+ 'C11': ' No mutex taken around a container\'s user callback stays held when the callback panics (R9).',
+ 'C12': ' The run-now branch of moveTask keeps the key index consistent; the drain\'s slot loop has no early exit.',
+ 'C13': ' Events are applied one by one from the watch response itself; a snapshot comes from one read (R10); no wait for the watch goroutines while holding a lock they take (R11; found and fixed F20, the reload deadlock).',
+ 'C14': ' Every type with Commit and Rollback in the package gets them promoted from *sql.Tx (R6): the interface call the path proof is about leads to database/sql.',
+ 'C15': ' The default hash is a pure function of its input (R7); virtual-node names are injective in (node, replica) (R8; known finding F27).',
+ 'C16': ' offset and lastTime of the rolling window advance together (found and fixed F21, two clock readings).',
+ 'C17': ' Every entry of a document map is stored (R13); map-typed configuration fields keep entry names apart from the element\'s field names (R14).',
+ 'C18': ' Body bytes reach the client only from the deferred flush; an empty ciphertext is an error (found and fixed F24a; partial blocks: known finding F24b); the router dispatches by the request\'s own method only (R11).',
+ 'C19': ' The lease arithmetic is 64-bit on every platform (found and fixed F23); no RedisLock method defers work to a goroutine or timer (R8).',
+ 'C20': ' Printf-family calls executed by the formatter have constant format strings (R8; found and fixed F19); scanner errors are recorded before the parser gives up (R9); format.Source hands the caller\'s writer to AST.Format once and writes nothing else (R10); IsZeroString accepts exactly the two empty literals (R11).',
+}
+for k, v in extra5.items():
     lvl, tech, text, note, ref = claims[k]
     claims[k] = (lvl, tech, text + v, note, ref)
 not_built_reason = 'static rules designed (DESIGN.md section 3) but not built yet in this revision'
